@@ -438,19 +438,20 @@ def kani_native_replay(scratch, repo, h, test_src):
 # ------------------------------------------------------------------ known findings
 
 def load_known(root):
-    p = os.path.join(root, "KNOWN_FINDINGS.jsonl")
+    p = os.path.join(root, "KNOWN_FINDINGS.txt")
     out = []
     if os.path.exists(p):
         for ln in open(p):
             ln = ln.strip()
-            if ln and not ln.startswith("#"):
-                out.append(json.loads(ln))
+            m = re.match(r"^open:\s+property=(C\d+)\s+obligation=(\S+)\s+::\s+(.*)$", ln)
+            if m:
+                out.append(dict(property=m.group(1), obligation=m.group(2), what=m.group(3)))
     return out
 
 
 def known_match(known, prop, oid):
     for k in known:
-        if k.get("status") == "open" and prop in k.get("properties", [k.get("property")]) and re.search(k["obligation"], oid):
+        if k["property"] == prop and re.search(k["obligation"], oid):
             return k
     return None
 
